@@ -543,8 +543,11 @@ def run_case(ctx, cfg, ops, model, sample=True):
     try:
         bad, comps, stats = execute(cfg, ops, model)
     except BootError as e:
-        ctx.count("config_rejected")
+        # the generated configurations are valid: a machine that does not boot is a crash of the code under test
+        ctx.count("boot_failed")
         ctx.evaluated(case, False, sample=False)
+        if not any(f["signature"] == "crash:boot" for f in ctx.failures):
+            ctx.fail("crash:boot", case, {"error": str(e)[:300]})
         return
     for o in ops:
         ctx.count("op_" + o[0])
